@@ -751,6 +751,9 @@ func resolveUnknown(k keySpec, ops []*opRec, final []string, tf int64) map[*opRe
 // culprit locates, by bisection over time (linearizability is prefix-closed), the first
 // reply after which the history of the key can no longer be linearized.
 func culprit(k keySpec, ops []*opRec, final []string, tf int64, timeout time.Duration) string {
+	if timeout > 5*time.Second {
+		timeout = 5 * time.Second // a diagnostic, not a verdict: a search that times out counts as "still fine"
+	}
 	var rets []*opRec
 	for _, o := range ops {
 		if o.Kind != "read" && o.Outcome == "ok" && !localNegative(o) {
